@@ -63,4 +63,8 @@ def emit_findings(ctx, ext):
                 gaps.append(f"({i}, {o})")
     f = lean_emit.LeanFile("Rspirv.Generated.Findings", [], "recorded findings still present (from known_findings.json)")
     f.list_def("c16KnownGaps", "Nat × Nat", gaps)
+    from rusttok import name_code
+    bad = [str(name_code(k["key"].split(":")[2])) for k in C.load_known()
+           if k["property"] == "C06" and k.get("status") == "known" and k["key"].startswith("C06:method:")]
+    f.list_def("c06KnownMethods", "Nat", bad)
     lean_emit.write_if_changed(C.GEN + "/Findings.lean", f.text())
